@@ -402,14 +402,67 @@ pub fn leaf_strategy(td: &TypeDef) -> BoxedStrategy<WExpr> {
         .boxed()
 }
 
+fn eq_leaf(f: &FieldDef) -> BoxedStrategy<WExpr> {
+    let name = f.name.clone();
+    if name == "k" {
+        return (0i64..40).prop_map(|d| WExpr::Cmp { field: "k".into(), op: Cmp::Eq, lit: Lit::Int(crate::hist::K_BASE + d) }).boxed();
+    }
+    (prop_oneof![5 => Just(Cmp::Eq), 1 => op_for_field(f)], lit_for_field(f)).prop_map(move |(op, lit)| WExpr::Cmp { field: name.clone(), op, lit }).boxed()
+}
+
+/// chains of three or four (mostly equality) leaves over one or two fields under ONE connective, nested to the left, to the
+/// right or balanced: the shapes a planner rewrites (an OR of equalities on one field into a membership probe, an AND of
+/// comparisons into a range), including the mixed case where one leaf of the chain is on another field
+pub fn chain_strategy(td: &TypeDef) -> BoxedStrategy<WExpr> {
+    let mut fields: Vec<FieldDef> = td.fields.clone();
+    fields.push(FieldDef { name: "k".into(), ty: FT::Int, opt: false, alias: "int".into() });
+    let n = fields.len();
+    (0..n, 0..n)
+        .prop_flat_map(move |(i, j)| {
+            let a = eq_leaf(&fields[i]);
+            let b = eq_leaf(&fields[j]);
+            (prop::collection::vec(prop_oneof![2 => a, 1 => b], 3..=4), 0u8..3, prop::bool::weighted(0.75))
+        })
+        .prop_map(|(leaves, shape, is_or)| {
+            let join = |x: WExpr, y: WExpr| if is_or { WExpr::Or(Box::new(x), Box::new(y)) } else { WExpr::And(Box::new(x), Box::new(y)) };
+            let mut it = leaves.into_iter();
+            match shape {
+                0 => {
+                    // ((l1 . l2) . l3) . l4
+                    let first = it.next().unwrap();
+                    it.fold(first, |acc, l| join(acc, l))
+                }
+                1 => {
+                    // l1 . (l2 . (l3 . l4))
+                    let mut v: Vec<WExpr> = it.collect();
+                    let last = v.pop().unwrap();
+                    v.into_iter().rev().fold(last, |acc, l| join(l, acc))
+                }
+                _ => {
+                    // (l1 . l2) . (l3 [. l4])
+                    let v: Vec<WExpr> = it.collect();
+                    let left = join(v[0].clone(), v[1].clone());
+                    let right = if v.len() > 3 { join(v[2].clone(), v[3].clone()) } else { v[2].clone() };
+                    join(left, right)
+                }
+            }
+        })
+        .boxed()
+}
+
 pub fn where_strategy(td: &TypeDef, depth: u32) -> BoxedStrategy<WExpr> {
     let leaf = leaf_strategy(td);
-    leaf.prop_recursive(depth, 12, 2, |inner| {
-        prop_oneof![
-            3 => (inner.clone(), inner.clone()).prop_map(|(a, b)| WExpr::And(Box::new(a), Box::new(b))),
-            3 => (inner.clone(), inner.clone()).prop_map(|(a, b)| WExpr::Or(Box::new(a), Box::new(b))),
-            2 => inner.prop_map(|a| WExpr::Not(Box::new(a))),
-        ]
-    })
-    .boxed()
+    let tree = leaf
+        .prop_recursive(depth, 12, 2, |inner| {
+            prop_oneof![
+                3 => (inner.clone(), inner.clone()).prop_map(|(a, b)| WExpr::And(Box::new(a), Box::new(b))),
+                3 => (inner.clone(), inner.clone()).prop_map(|(a, b)| WExpr::Or(Box::new(a), Box::new(b))),
+                2 => inner.prop_map(|a| WExpr::Not(Box::new(a))),
+            ]
+        })
+        .boxed();
+    if depth < 2 {
+        return tree;
+    }
+    prop_oneof![6 => tree, 2 => chain_strategy(td)].boxed()
 }
